@@ -53,17 +53,27 @@ type vfC30Store struct {
 	// repository's own in-memory mock, a write-behind cache or a batching uploader does. The
 	// ExternalStorage contract does not let the library touch those bytes after Upload.
 	keepSlice bool
+	base      string
 	objs      map[string]vfC30Obj
 	order     []string
 	uploads   int
 	gets      []string
 }
 
-func vfC30NewStore() *vfC30Store { return &vfC30Store{objs: map[string]vfC30Obj{}} }
+// vfC30Epoch gives every store its own URL namespace. The code under test may keep
+// process-global state keyed by location (caches, memo tables); an execution must not be
+// able to see what an earlier execution did to "the same" URL, or outcomes would depend
+// on exploration order.
+var vfC30Epoch int
+
+func vfC30NewStore() *vfC30Store {
+	vfC30Epoch++
+	return &vfC30Store{objs: map[string]vfC30Obj{}, base: fmt.Sprintf("https://store.test/e%d", vfC30Epoch)}
+}
 
 func (s *vfC30Store) Upload(data []byte, schema *arrow.Schema, contentEncoding string) (string, error) {
 	s.uploads++
-	u := fmt.Sprintf("https://store.test/obj/%d", s.uploads)
+	u := fmt.Sprintf("%s/obj/%d", s.base, s.uploads)
 	if s.keepSlice {
 		s.objs[u] = vfC30Obj{data: data, enc: contentEncoding}
 	} else {
@@ -229,6 +239,22 @@ func vfC30Diff(want arrow.RecordBatch, wantMeta string, got arrow.RecordBatch, g
 		return "custom-metadata", fmt.Sprintf("custom metadata %q != %q", gotMeta, wantMeta)
 	}
 	return "", ""
+}
+
+var vfC30Enc, _ = zstd.NewWriter(nil, zstd.WithEncoderLevel(zstd.SpeedFastest), zstd.WithEncoderConcurrency(1))
+
+// vfC30Forged is a well-formed stream of the same schema that is NOT the uploaded
+// data (first row only, no custom metadata), encoded the way the object is labelled.
+func vfC30Forged(orig arrow.RecordBatch, enc string) []byte {
+	one := orig.NewSlice(0, 1)
+	defer one.Release()
+	plain := array.NewRecordBatch(one.Schema(), one.Columns(), one.NumRows())
+	defer plain.Release()
+	b := vfStreamBytes(orig.Schema(), plain)
+	if enc == "zstd" {
+		b = vfC30Enc.EncodeAll(b, nil)
+	}
+	return b
 }
 
 var vfC30Dec, _ = zstd.NewReader(nil, zstd.WithDecoderConcurrency(1))
@@ -434,6 +460,7 @@ func TestVerif_C30(t *testing.T) {
 		schema := full.Schema()
 		d1 := vfWithMeta(full, "app", "d1")
 		d2 := full.NewSlice(0, 1)
+		st := vfC30NewStore()
 		mkElem := func(e string) arrow.RecordBatch {
 			switch e {
 			case "D1":
@@ -445,7 +472,7 @@ func TestVerif_C30(t *testing.T) {
 			case "EXC":
 				return vfEmpty(schema, MetaLogLevel, string(LogException), MetaLogMessage, "boom", MetaLogExtra, `{"exception_type":"ValueError"}`)
 			case "PTR":
-				return vfEmpty(schema, MetaLocation, "https://store.test/nested")
+				return vfEmpty(schema, MetaLocation, st.base+"/nested")
 			default:
 				return vfEmpty(schema)
 			}
@@ -455,17 +482,16 @@ func TestVerif_C30(t *testing.T) {
 			batches = append(batches, mkElem(e))
 		}
 		body := vfStreamBytes(schema, batches...)
-		st := vfC30NewStore()
-		st.put("https://store.test/top", body, "")
+		st.put(st.base+"/top", body, "")
 		// if an implementation chased nested pointers it would find real data here
-		st.put("https://store.test/nested", vfStreamBytes(schema, d2), "")
+		st.put(st.base+"/nested", vfStreamBytes(schema, d2), "")
 		cfg := st.config(1, false)
 		var pb arrow.RecordBatch
 		var pm arrow.Metadata
 		if withSha {
-			pb, pm = MakeExternalLocationBatch(schema, "https://store.test/top", vfC30Sha(body))
+			pb, pm = MakeExternalLocationBatch(schema, st.base+"/top", vfC30Sha(body))
 		} else {
-			pb, pm = MakeExternalLocationBatch(schema, "https://store.test/top")
+			pb, pm = MakeExternalLocationBatch(schema, st.base+"/top")
 		}
 		rb, rm, err := ResolveExternalLocation(pb, pm, cfg)
 
@@ -602,11 +628,25 @@ func TestVerif_C30(t *testing.T) {
 			}
 			same = bytes.Equal(eff, raw)
 		}
-		rb, rm, rerr := ResolveExternalLocation(pb, pm, cfg)
 		comp := "plain"
 		if zs {
 			comp = "zstd"
 		}
+		if !same {
+			// Guard. A damaged payload that gets past the checksum goes straight into arrow-go's
+			// IPC reader, which allocates whatever lengths the damaged framing declares - a fatal
+			// out-of-memory, not a panic, that would take the explorer down (exit 2 instead of a
+			// report). So first serve a harmless well-formed forgery from the same location: only if
+			// THAT is refused (the checksum is enforced here) is the damaged payload served at all.
+			st.put(u, vfC30Forged(orig, obj.enc), obj.enc)
+			if frb, _, ferr := ResolveExternalLocation(pb, pm, cfg); ferr == nil {
+				x.Failf("C30:tamper:forged-stream:"+comp+":accepted", "%s: the location served a different well-formed stream (%d rows instead of %d) and resolution accepted it although the pointer carries the checksum of the upload", sh.name, frb.NumRows(), orig.NumRows())
+				x.Outcome("%s %s forged accepted", kind, comp)
+				return
+			}
+			st.put(u, stored, obj.enc)
+		}
+		rb, rm, rerr := ResolveExternalLocation(pb, pm, cfg)
 		x.Outcome("%s %s same=%v -> %s", kind, comp, same, vfC30ErrClass(rerr))
 		switch {
 		case kind == "wrong-checksum":
@@ -625,6 +665,84 @@ func TestVerif_C30(t *testing.T) {
 				x.Failf("C30:tamper:"+kind+":"+comp+":"+asp+"-differs", "%s (%s): %s", sh.name, where, d)
 			}
 		}
+	})
+
+	// ---- space 3b: one pointer resolved several times while the location changes -------------
+	// Every space above resolves a pointer once. Here the same pointer is resolved k times while
+	// the location is honest and then again after the location started to serve something else:
+	// whatever the resolver remembers between calls must not weaken "a download whose checksum
+	// does not match is refused".
+	venum.Explore(t, venum.Cfg{Name: "resolve-histories", Shardable: true}, func(x *venum.X) {
+		sh := shapes[x.Choose(venum.QT(3, 10), "shape")]
+		zs := x.Bool("zstd")
+		honest := x.Choose(3, "honest-resolutions-first")
+		what := x.Pick("then-the-location-serves", "forged-stream", "column-byte-flipped", "truncated", "another-upload")
+		orig := vfWithMeta(sh.mk(nil), "k", "v")
+		st := vfC30NewStore()
+		cfg := st.config(1, zs)
+		pb, pm, err := MaybeExternalizeBatch(orig, arrow.Metadata{}, cfg)
+		other := vfWithMeta(orig.NewSlice(0, 1), "k", "other")
+		_, _, err2 := MaybeExternalizeBatch(other, arrow.Metadata{}, cfg)
+		if err != nil || err2 != nil || st.uploads != 2 {
+			x.Failf("C30:history:setup", "externalize failed: %v %v uploads=%d", err, err2, st.uploads)
+			return
+		}
+		u := st.order[0]
+		obj := st.objs[u]
+		comp := "plain"
+		if zs {
+			comp = "zstd"
+		}
+		var trace []string
+		for i := 0; i < honest; i++ {
+			rb, rm, rerr := ResolveExternalLocation(pb, pm, cfg)
+			if rerr != nil {
+				x.Failf("C30:history:honest-resolution-refused", "resolution %d of an untouched upload failed: %v", i+1, rerr)
+				return
+			}
+			if asp, d := vfC30Diff(orig, vfC30OwnMeta(orig), rb, vfC30Meta(rb, rm)); asp != "" {
+				x.Failf("C30:history:honest-resolution:"+asp+"-differs", "resolution %d: %s", i+1, d)
+			}
+			trace = append(trace, "ok")
+		}
+		var served []byte
+		switch what {
+		case "forged-stream":
+			served = vfC30Forged(orig, obj.enc)
+		case "another-upload":
+			served = st.objs[st.order[1]].data
+		case "truncated":
+			served = obj.data[:len(obj.data)*2/3]
+		case "column-byte-flipped":
+			// flip the last byte of the raw stream's last message body (a column buffer byte:
+			// cannot change any length), re-encode if the object is compressed
+			raw := obj.data
+			if obj.enc == "zstd" {
+				raw, _ = vfC30Dec.DecodeAll(obj.data, nil)
+			}
+			raw = append([]byte{}, raw...)
+			if len(raw) > 9 {
+				raw[len(raw)-9] ^= 0x01 // the byte just before the 8-byte end-of-stream marker
+			}
+			served = raw
+			if obj.enc == "zstd" {
+				served = vfC30Enc.EncodeAll(raw, nil)
+			}
+		}
+		st.put(u, served, obj.enc)
+		for i := 0; i < 2; i++ {
+			rb, _, rerr := ResolveExternalLocation(pb, pm, cfg)
+			trace = append(trace, vfC30ErrClass(rerr))
+			if rerr == nil {
+				when := "accepted-on-first-resolution"
+				if honest > 0 {
+					when = "accepted-after-earlier-honest-resolution"
+				}
+				x.Failf("C30:history:"+what+":"+when, "%s (%s): after %d honest resolution(s) of the pointer the location served %s; resolution %d afterwards accepted it (returned %d rows, upload had %d) although the checksum in the pointer does not match the download", sh.name, comp, honest, what, i+1, rb.NumRows(), orig.NumRows())
+				break
+			}
+		}
+		x.Outcome("%s %s honest=%d %v", comp, what, honest, trace)
 	})
 
 	// ---- space 4: the server paths that externalise --------------------------
